@@ -36,6 +36,13 @@ def run(repo, rep):
     from . import c03, c11
 
     rep.run_borrowed(c03, {"C03-f": "C12-d"}, repo, only_sites=("extract_npu_subgraphs", "live_range"))
+    rep.clause("C12-j", "the live range of a weight buffer / rolling buffer is as large as what the command stream moves into it: buffer k holds the largest slice of its parity, rolling buffers are sized in whole 16-channel bricks [rules shared with C03-c, C03-e]")
+    rep.run_borrowed(c03, {"C03-c": "C12-j", "C03-e": "C12-j"}, repo)
+    from . import c02 as _c02
+
+    rep.run_borrowed(_c02, {"C02-f": "C12-j"}, repo, only_sites=("propose_weight_buffering", "encode_weight_and_scale_tensor"))
+    rep.clause("C12-k", "all operators of a cascade are live in one time slot (they run interleaved stripe by stripe): the slot recorded for the cascade is the slot the current operator's tensors were marked with")
+    rule_cascade_slot(repo, rep)
     rep.run_borrowed(c11, {"C11-b": "C12-a"}, repo, only_sites=("data_type",))
     rule_round5(repo, rep)
     rule_subgraph_refs(repo, rep)
@@ -360,3 +367,20 @@ def rule_cpu_pass_tensors(repo, rep):
                   f"`{str(norm(got[role]))[:70]}`: tensors left out get no live range, keep address None and are written with arena offset 0, where the kernel's write overlaps whatever was allocated there "
                   "(demonstrated: TOPK_V2 whose indices output is unused)")
     rep.floor("C12-i", 2)
+
+
+def rule_cascade_slot(repo, rep):
+    lr = repo.mod("live_range")
+    f = lr.func("extract_live_ranges_from_schedule")
+    site = "ethosu/vela/live_range.py:extract_live_ranges_from_schedule"
+    stores = [a for a in ast.walk(f) if isinstance(a, ast.Assign) and len(a.targets) == 1 and isinstance(a.targets[0], ast.Subscript) and str(norm(a.targets[0].value)) == "time_for_cascade"]
+    marks = [c for c in ast.walk(f) if isinstance(c, ast.Call) and isinstance(c.func, ast.Attribute) and c.func.attr == "mark_usage" and c.args]
+    if len(stores) != 1 or not marks:
+        raise AnalysisError("extract_live_ranges_from_schedule: cascade slot bookkeeping not found")
+    marked = {str(norm(c.args[0])) for c in marks}
+    gets = [a for a in ast.walk(f) if isinstance(a, ast.Assign) and isinstance(a.value, ast.Call) and str(norm(a.value.func)) == "time_for_cascade.get"]
+    slot = str(norm(gets[0].targets[0])) if gets else None
+    v = str(norm(stores[0].value))
+    rep.check(slot is not None and v == slot and slot in marked, "C12-k", site, f"time_for_cascade[cascade] = {slot}: the slot the operator's tensors were marked with",
+              f"`{str(norm(stores[0]))}`: later operators of the cascade get a slot of their own; cascade input and output are no longer live together and the allocator puts the output on the input "
+              "(output stripes overwrite input rows that later stripes still read)")
